@@ -84,7 +84,9 @@ async fn call(state: &State, req: Request<Empty<Bytes>>) -> Option<Full> {
     Some((status, hs, body))
 }
 
-/// a backend that answers every request on every path with the same small response
+/// a backend that reports what it received: `x-seen-path` = the request target, `x-seen` = a hash of the method and
+/// of every header line (sorted), body = that dump; so a request that the server alters on its way to the backend
+/// gets a visibly different answer
 pub fn start_backend(rt: &tokio::runtime::Runtime) -> &'static rusty_penguin_lib::arg::BackendUrl {
     use std::str::FromStr;
     use tokio::io::{AsyncReadExt, AsyncWriteExt};
@@ -102,8 +104,28 @@ pub fn start_backend(rt: &tokio::runtime::Runtime) -> &'static rusty_penguin_lib
                             Ok(n) => buf.extend_from_slice(&b[..n]),
                         }
                         while let Some(pos) = buf.windows(4).position(|w| w == b"\r\n\r\n") {
-                            buf.drain(..pos + 4);
-                            if s.write_all(b"HTTP/1.1 200 OK\r\ncontent-length: 7\r\nx-backend: yes\r\n\r\nbackend").await.is_err() {
+                            let head: Vec<u8> = buf.drain(..pos + 4).collect();
+                            let head = String::from_utf8_lossy(&head[..pos]).to_string();
+                            let mut lines = head.split("\r\n");
+                            let first = lines.next().unwrap_or("");
+                            let mut parts = first.split(' ');
+                            let method = parts.next().unwrap_or("").to_string();
+                            let path = parts.next().unwrap_or("").to_string();
+                            let mut hs: Vec<String> = lines
+                                .filter_map(|l| l.split_once(':').map(|(k, v)| format!("{}: {}", k.trim().to_ascii_lowercase(), v.trim())))
+                                .collect();
+                            hs.sort();
+                            let dump = format!("M={method}\n{}\n", hs.join("\n"));
+                            let mut h: u64 = 0xcbf2_9ce4_8422_2325;
+                            for &x in dump.as_bytes() {
+                                h = (h ^ u64::from(x)).wrapping_mul(0x100_0000_01b3);
+                            }
+                            let body = if method == "HEAD" { String::new() } else { dump.clone() };
+                            let resp = format!(
+                                "HTTP/1.1 200 OK\r\ncontent-length: {}\r\nx-backend: yes\r\nx-seen: {h:016x}\r\nx-seen-path: {path}\r\n\r\n{body}",
+                                dump.len()
+                            );
+                            if s.write_all(resp.as_bytes()).await.is_err() {
                                 return;
                             }
                         }
@@ -135,11 +157,26 @@ fn class_of(full: &Full) -> u64 {
 /// answer).  Returns None when consistent, else [7, class without backend, class with, same].
 async fn backend_variant(state_b: &State, case: &Case, class_nb: u64) -> Option<Vec<u64>> {
     let req = build(case, &case.path)?;
-    let unk = build(case, b"/__no_such_path__")?;
-    let strip = |f: Full| -> Full { (f.0, f.1.into_iter().filter(|(k, _)| k != "date").collect(), f.2) };
-    let r = strip(call(state_b, req).await?);
-    let cb = class_of(&r);
-    let same = if cb == 3 { u64::from(call(state_b, unk).await.map(strip).as_ref() == Some(&r)) } else { 1 };
+    // an unknown path of the same shape (so that the backend's answer has the same size)
+    let known: [&[u8]; 3] = [b"/ws", b"/health", b"/version"];
+    let unk_path: Vec<u8> = if known.iter().any(|k| case.path.starts_with(k)) {
+        case.path.iter().map(|&c| if c.is_ascii_alphanumeric() { b'q' } else { c }).collect()
+    } else {
+        case.path.clone()
+    };
+    let unk = build(case, &unk_path)?;
+    let seen_path = |f: &Full| f.1.iter().find(|(k, _)| k == "x-seen-path").map(|(_, v)| v.clone());
+    let strip = |f: Full| -> Full { (f.0, f.1.into_iter().filter(|(k, _)| k != "date" && k != "x-seen-path").collect(), f.2) };
+    let r0 = call(state_b, req).await?;
+    let cb = class_of(&r0);
+    let same = if cb == 3 {
+        let u0 = call(state_b, unk).await;
+        // the backend saw each request under its own path, and otherwise the same request
+        let paths_ok = seen_path(&r0).is_none_or(|p| p == case.path) && u0.as_ref().and_then(seen_path).is_none_or(|p| p == unk_path);
+        u64::from(paths_ok && u0.map(strip).as_ref() == Some(&strip(r0)))
+    } else {
+        1
+    };
     if cb == class_nb && same == 1 { None } else { Some(vec![7, class_nb, cb, same]) }
 }
 
